@@ -29,6 +29,9 @@ def main():
     try:
         t = subprocess.run(["/venv/bin/python", "-m", "pytest", "-q", "-p", "no:cacheprovider"], cwd="/repo", capture_output=True, text=True)
         print("test suite with the change:", t.stdout.strip().split("\n")[-1])
+        import glob
+        for f in glob.glob("/repo/tempdest*"):          # the suite's own scratch files, left behind when one of its tests stops early
+            os.remove(f)
         demo = os.path.join(os.path.dirname(os.path.abspath(patch)), "demo.py")
         if os.path.exists(demo):
             d = subprocess.run(["/venv/bin/python", demo, "/repo"], capture_output=True, text=True)
